@@ -17,6 +17,7 @@ import numpy as np
 
 from .. import disthist as dh
 from .. import tlc
+from ..core import scribble
 
 KAT = {'keys': [[0x13, 0x34, 0x57, 0x79, 0x9B, 0xBC, 0xDF, 0xF1]], 'block': [0x01, 0x23, 0x45, 0x67, 0x89, 0xAB, 0xCD, 0xEF]}
 
@@ -67,6 +68,7 @@ def cmp(chk, got, want, sig, ctx, text):
     if got.shape != want.shape or not np.array_equal(got.astype('int64'), want.astype('int64')):
         chk.violation(sig, dict(ctx, property='C06', got=got.tolist(), expected=want.tolist()), text)
         return False
+    scribble(got)         # the result is the caller's: whatever they write into it must not reach later results
     return True
 
 
@@ -124,6 +126,68 @@ def shapes(chk, cases, grid, beh, rng, nkeys, nblocks):
             chk.count(('shape', 'pairs', nk, d, r, s), nontrivial=True)
             cmp(chk, scared.des.encrypt(blocks, keys, at_des=d, at_round=r, after_step=s), [beh[i]['enc'][d * 16 + r][s] for i in idx], 'encrypt:blocks paired with keys', {'part': 'shape', 'shape': 'pairs', 'at': [d, r, s]}, 'encrypt pairs')
             cmp(chk, scared.des.decrypt(cts, keys, at_des=d, at_round=r, after_step=s), [beh[i]['dec'][d * 16 + r][s] for i in idx], 'decrypt:blocks paired with keys', {'part': 'shape', 'shape': 'pairs', 'at': [d, r, s]}, 'decrypt pairs')
+
+
+def large_batches(chk, cases, beh, sizes):
+    """the batch forms are the row-wise map of the single-block cipher: batches larger than any internal chunking, rows cycling through the
+    TLC-evaluated behaviours - every row (the last ones included) is its own documented value"""
+    import scared
+    for nk in (1, 2, 3):
+        idx = [i for i, c in enumerate(cases) if len(c['keys']) == nk]
+        npass = 1 if nk == 1 else 3
+        for N in sizes:
+            sel = [(j * 5 + N) % len(idx) for j in range(N)]
+            keys = np.array([flat_key(cases[i]) for i in idx], dtype='uint8')[sel]
+            blocks = np.array([cases[i]['block'] for i in idx], dtype='uint8')[sel]
+            d, r, s_ = (N + nk) % npass, (N // 7) % 16, (N // 3) % 10
+            full = np.array([beh[i]['enc'][(npass - 1) * 16 + 15][9] for i in idx], dtype='uint8')[sel]
+            for name, got, exp in (('encrypt:blocks paired with keys (large batch)', scared.des.encrypt(blocks, keys), full),
+                                   ('decrypt:blocks paired with keys (large batch)', scared.des.decrypt(full, keys), blocks)):
+                got = np.asarray(got)
+                chk.count(('large', nk, N, name), nontrivial=True)
+                if got.shape != exp.shape or not np.array_equal(got, exp):
+                    badrow = int(np.nonzero(np.any(got != exp, axis=1))[0][-1]) if got.shape == exp.shape else -1
+                    chk.violation(name, {'property': 'C06', 'part': 'large', 'rows': N, 'keys_per_row': nk, 'row': badrow, 'key': keys[badrow].tolist(), 'block': blocks[badrow].tolist(),
+                                         'got': got[badrow].tolist() if badrow >= 0 else list(got.shape), 'expected': exp[badrow].tolist()}, f'{name}: row {badrow} of {N} is not the documented value')
+            # a stop point: views have different widths, compare row by row against the per-behaviour table
+            tab = [np.asarray(beh[i]['enc'][d * 16 + r][s_]) for i in idx]
+            got = np.asarray(scared.des.encrypt(blocks, keys, at_des=d, at_round=r, after_step=s_))
+            exp = np.array(tab)[sel]
+            chk.count(('large', nk, N, 'stop'), nontrivial=True)
+            if got.shape != exp.shape or not np.array_equal(got, exp):
+                chk.violation('encrypt:blocks paired with keys (large batch, stop point)', {'property': 'C06', 'part': 'large', 'rows': N, 'keys_per_row': nk, 'at': [d, r, s_]},
+                              f'encrypt of {N} rows at (pass {d}, round {r}, step {s_}): some row is not the documented value')
+        chk.traces_validated += 1
+
+
+def caller_owned(chk, cases, beh):
+    """encrypt / decrypt are functions of (block, key): whatever the caller did with arrays returned by earlier calls (key schedules, results) - here,
+    overwriting them - a later call with the same block and key still returns the specification's value"""
+    import scared
+    for ci, c in enumerate(cases):
+        e = beh[ci]
+        npass = 1 if len(c['keys']) == 1 else 3
+        key = np.array(flat_key(c), dtype='uint8')
+        blk = np.array(c['block'], dtype='uint8')
+        want = e['enc'][(npass - 1) * 16 + 15][9]
+        for k8 in c['keys']:
+            ks = scared.des.key_schedule(np.array(k8, dtype='uint8'))
+            if isinstance(ks, np.ndarray) and ks.flags.writeable:
+                ks[...] = 0x2A
+        first = scared.des.encrypt(blk, key)
+        ok1 = cmp(chk, first, want, 'encrypt:result does not depend on what the caller wrote into arrays returned by earlier calls',
+                  {'part': 'owned', 'keys': c['keys'], 'block': c['block'], 'mode': 'encrypt', 'after': 'key_schedule result overwritten'}, 'encrypt after the caller overwrote a returned key schedule')
+        if isinstance(first, np.ndarray) and first.flags.writeable:
+            first[...] = 0
+        mid = scared.des.encrypt(blk, key, at_des=npass - 1, at_round=3, after_step=4)
+        if isinstance(mid, np.ndarray) and mid.flags.writeable:
+            mid[...] = 0xFF
+        cmp(chk, scared.des.encrypt(blk, key), want, 'encrypt:result does not depend on what the caller wrote into arrays returned by earlier calls',
+            {'part': 'owned', 'keys': c['keys'], 'block': c['block'], 'mode': 'encrypt', 'after': 'results overwritten'}, 'encrypt after the caller overwrote earlier results')
+        cmp(chk, scared.des.decrypt(np.array(want, dtype='uint8'), key), c['block'], 'decrypt:result does not depend on what the caller wrote into arrays returned by earlier calls',
+            {'part': 'owned', 'keys': c['keys'], 'block': want, 'mode': 'decrypt', 'after': 'results overwritten'}, 'decrypt after the caller overwrote earlier results')
+        chk.count(('owned', ci), nontrivial=True)
+        chk.traces_validated += 1
 
 
 def primitives(chk, rng):
@@ -185,6 +249,8 @@ def run(chk):
         if ci % 2 == 0:
             all_stops(chk, cases, beh, ci, rounds if full else [0, 15], True, 'uint8')
     shapes(chk, cases, grid, beh, rng, nkeys, nblocks)
+    caller_owned(chk, cases, beh)
+    large_batches(chk, cases, beh, [2 ** 16 + 37] if q else [2 ** 16 - 3, 2 ** 16 + 37, 2 ** 17 + 1])
     primitives(chk, rng)
     from .. import apirules
     apirules.run(chk, 'des_stop', 'C06')
